@@ -54,6 +54,13 @@ func ZZ_C16_oprf_base_mode_output_independent_of_blind() {
 		zzAssert(err == nil, "direct evaluation succeeds")
 		zzAssert(zzBytesEq(outs[i], direct), "finalised output = direct evaluation (independent of the blind)")
 	}
+	// finalisation does not consume or alter the client's state: finalising the same data again
+	// (the blinds are still the ones chosen) gives the same outputs
+	outs2, err := cl.Finalize(fin, eval)
+	zzAssert(err == nil, "second finalisation succeeds")
+	for i := range inputs {
+		zzAssert(zzBytesEq(outs2[i], outs[i]), "finalising the same data twice gives the same output (the stored blinds are not modified)")
+	}
 }
 
 //zz: prop=C16 tier=quick backend=bv use=hashuf timeout=600
